@@ -363,6 +363,12 @@ class Gen:
             href = ' xlink:href="#%s"' % rng.choice(self.grad_ids)
             if rng.random() < 0.6:
                 stops = ""
+        if self.F.unsupported and rng.random() < 0.3:
+            # something that is not a stop inside a gradient, or a child inside a stop
+            if stops and rng.random() < 0.5:
+                stops = stops.replace("/>", '><animate attributeName="offset" to="1"/></stop>', 1)
+            else:
+                stops += '<animateTransform attributeName="gradientTransform" type="rotate" to="90"/>'
         tag = "linearGradient" if lin else "radialGradient"
         self.grad_ids.append(i)
         return '<%s id="%s"%s%s>%s</%s>' % (tag, i, at, href, stops, tag)
@@ -404,8 +410,13 @@ class Gen:
             root += ' viewBox="%s"' % vb
         else:
             root += ' width="100" height="100"'
+        rattrs = []
         if F.root_attrs and rng.random() < 0.4:
-            root += emit_attrs(rng, F, [(k, v) for k, v in paint_attrs(rng, F) if k in ("fill", "opacity", "fill-rule", "stroke", "stroke-width")])
+            rattrs += [(k, v) for k, v in paint_attrs(rng, F) if k in ("fill", "opacity", "fill-rule", "stroke", "stroke-width")]
+        if (F.root_attrs or F.unsupported) and rng.random() < 0.25:
+            # inheritable properties without a default of their own: they must not survive on the root either
+            rattrs += rng.sample([("overflow", "visible"), ("display", "inline"), ("color", "red"), ("clip-rule", "evenodd")], rng.randint(1, 2))
+        root += emit_attrs(rng, F, rattrs)
         dstr = ""
         if defs:
             if rng.random() < 0.8:
